@@ -14,6 +14,7 @@ joins (y,x)-(y+1,x).
 The oracle enumerates every simple cycle of the (height+1) x (width+1) lattice graph (plus the empty
 loop) and keeps those matching the clues.
 """
+import json
 
 MODULE = "cspuz.puzzle.slitherlink"
 
@@ -119,6 +120,8 @@ def solutions(inst):
 
 def classify(inst):
     h, w = _dims(inst)
+    if h == 1 and w == 1:
+        return "1x1 board"
     if h == 1 or w == 1:
         return "1xN board"
     return "square" if h == w else ("h>w" if h > w else "h<w")
@@ -128,12 +131,12 @@ def _clues_of(h, w, H, V):
     return [[H[y][x] + H[y + 1][x] + V[y][x] + V[y][x + 1] for x in range(w)] for y in range(h)]
 
 
-def instances(tier, rnd):
+def _instances(tier, rnd):
     quick = tier == "quick"
     sizes = [(1, 1), (1, 2), (2, 1), (1, 3), (3, 1), (1, 4), (2, 2), (2, 3), (3, 2), (3, 3)]
     if not quick:
         sizes += [(4, 1), (1, 5), (2, 4), (4, 2), (3, 4), (4, 3)]
-    per = 9 if quick else 120
+    per = 13 if quick else 120
     for (h, w) in sizes:
         # fixed instances: no clue at all, all zero, every single-cell clue value on tiny boards
         yield dict(height=h, width=w, problem=[[-1] * w for _ in range(h)])
@@ -158,6 +161,16 @@ def instances(tier, rnd):
                 # fully random clues
                 p = [[rnd.choice([-1, -1, 0, 1, 2, 3]) for x in range(w)] for y in range(h)]
             yield dict(height=h, width=w, problem=p)
+
+
+def instances(tier, rnd):
+    """the instances of _instances() without repetitions"""
+    seen = set()
+    for inst in _instances(tier, rnd):
+        key = json.dumps(inst, sort_keys=True)
+        if key not in seen:
+            seen.add(key)
+            yield inst
 
 
 # the module's own _main() example (http://pzv.jp/p.html?slither/4/4/dgdh2c7b), also used in
